@@ -16,39 +16,10 @@ Vocabulary (defined in the Proofs files, all explicit):
 * `IsLeastPeriod ds i j d r` — r is the least k ≥ 1 with (op_j ∘ op_i)^k d = d (orbit length)
 * `s.mVal i b`       — degree m(i,i+1,b) = r·v of a symbol with valid tables
 -/
-import DSymVerif.Proofs.CoversTable
+import DSymVerif.Proofs.CoversWitness
 
 namespace DSymVerif.C05
-open DSymVerif.DS DSymVerif.Covers
-
-/-! ### witnesses for the non-vacuity examples -/
-
-/-- one chamber, dimension 1, both operations fix it -/
-def ex1 : DSetData := { size := 1, dim := 1, op := #[1, 1] }
-
-theorem ex1_valid : ValidSet ex1 := by
-  refine ⟨by decide, ?_, ?_⟩
-  · intro i d hi h1 h2
-    have hi' : i ≤ 1 := hi
-    have h2' : d ≤ 1 := h2
-    have : (i = 0 ∨ i = 1) ∧ d = 1 := by omega
-    rcases this with ⟨rfl | rfl, rfl⟩ <;> decide
-  · intro i d hi h1 h2
-    have hi' : i ≤ 1 := hi
-    have h2' : d ≤ 1 := h2
-    have : (i = 0 ∨ i = 1) ∧ d = 1 := by omega
-    rcases this with ⟨rfl | rfl, rfl⟩ <;> decide
-
-/-- the symbol on `ex1` as `PartialDSym::from` builds it -/
-def sym1 : DSymData := DSymData.ofSimple ex1
-
-theorem sym1_valid : ValidTables sym1 := ValidTables.ofSimple ex1_valid
-
-/-- two sheets exchanged across every edge -/
-def swap2 : Nat → Nat → Nat → Nat := fun k _ _ => k ^^^ 1
-
-theorem swap2_compat : SheetCompat sym1.dset 2 swap2 :=
-  ⟨fun _ _ _ hk _ _ _ => (xor_one_lt_two hk).1, fun _ _ _ hk _ _ _ => (xor_one_lt_two hk).2⟩
+open DSymVerif.DS DSymVerif.Covers DSymVerif.C05W
 
 /-! ### 1. `build_set` accepts exactly the involutions -/
 
